@@ -82,10 +82,19 @@ var (
 	NetpollOpen int // descriptors currently open and owned by netpoll
 )
 
-// Reset clears the ledger for a new run.
+// Reset clears the ledger for a new run. Descriptors a previous run left open (a run that was
+// capped or abandoned after a violation never reaches its clean-up) are closed first, so that no
+// state leaks from one run into the next.
 func Reset() {
-	for i := range FDs {
-		FDs[i] = FDInfo{}
+	raiseNoFile()
+	for fd := range FDs {
+		if FDs[fd].Open && fd != marker {
+			syscall.Close(fd)
+		}
+		FDs[fd] = FDInfo{}
+	}
+	for _, tw := range tripwires {
+		syscall.Close(tw)
 	}
 	Events = Events[:0]
 	BadCloses = nil
@@ -106,6 +115,23 @@ func Reset() {
 		syscall.Close(fd)
 		marker = hi
 		syscall.Fstat(marker, &markerStat)
+	}
+}
+
+var noFileRaised bool
+
+func raiseNoFile() {
+	if noFileRaised {
+		return
+	}
+	noFileRaised = true
+	var lim syscall.Rlimit
+	if syscall.Getrlimit(syscall.RLIMIT_NOFILE, &lim) == nil && lim.Cur < lim.Max {
+		lim.Cur = lim.Max
+		if lim.Cur > 65536 {
+			lim.Cur = 65536
+		}
+		syscall.Setrlimit(syscall.RLIMIT_NOFILE, &lim)
 	}
 }
 
@@ -530,6 +556,7 @@ func pollNow(p *pollfd) bool {
 	}
 }
 
+//go:nocheckptr
 func iovTotal(iov *syscall.Iovec, cnt int) (total int) {
 	vs := unsafe.Slice(iov, cnt)
 	for i := range vs {
@@ -539,6 +566,7 @@ func iovTotal(iov *syscall.Iovec, cnt int) (total int) {
 }
 
 // clipIov returns a copy of the vector limited to max bytes.
+//go:nocheckptr
 func clipIov(iov *syscall.Iovec, cnt, max int) []syscall.Iovec {
 	vs := unsafe.Slice(iov, cnt)
 	out := make([]syscall.Iovec, 0, cnt)
@@ -565,6 +593,7 @@ const errRet = ^uintptr(0)
 // entry points.
 //
 //go:uintptrescapes
+//go:nocheckptr
 //go:norace
 func RawSyscall(trap, a1, a2, a3 uintptr) (uintptr, uintptr, syscall.Errno) {
 	switch trap {
@@ -627,6 +656,7 @@ func RawSyscall(trap, a1, a2, a3 uintptr) (uintptr, uintptr, syscall.Errno) {
 	return syscall.RawSyscall(trap, a1, a2, a3)
 }
 
+//go:nocheckptr
 //go:norace
 func sendv(fd int, trap, a1 uintptr, iov *syscall.Iovec, cnt, total int, mh *syscall.Msghdr) (uintptr, syscall.Errno) {
 	name := "sendmsg"
@@ -680,6 +710,7 @@ type epollEvent struct {
 // entry points.
 //
 //go:uintptrescapes
+//go:nocheckptr
 //go:norace
 func RawSyscall6(trap, a1, a2, a3, a4, a5, a6 uintptr) (uintptr, uintptr, syscall.Errno) {
 	switch trap {
@@ -728,6 +759,7 @@ func RawSyscall6(trap, a1, a2, a3, a4, a5, a6 uintptr) (uintptr, uintptr, syscal
 	return syscall.RawSyscall6(trap, a1, a2, a3, a4, a5, a6)
 }
 
+//go:nocheckptr
 //go:norace
 func epollWait(a1, a2, a3 uintptr) (uintptr, uintptr, syscall.Errno) {
 	max := int(a3)
@@ -752,6 +784,7 @@ func epollWait(a1, a2, a3 uintptr) (uintptr, uintptr, syscall.Errno) {
 // entry points.
 //
 //go:uintptrescapes
+//go:nocheckptr
 //go:norace
 func Syscall(trap, a1, a2, a3 uintptr) (uintptr, uintptr, syscall.Errno) {
 	switch trap {
@@ -779,6 +812,7 @@ func Syscall(trap, a1, a2, a3 uintptr) (uintptr, uintptr, syscall.Errno) {
 // entry points.
 //
 //go:uintptrescapes
+//go:nocheckptr
 //go:norace
 func Syscall6(trap, a1, a2, a3, a4, a5, a6 uintptr) (uintptr, uintptr, syscall.Errno) {
 	switch trap {
@@ -793,7 +827,7 @@ func Syscall6(trap, a1, a2, a3, a4, a5, a6 uintptr) (uintptr, uintptr, syscall.E
 		}
 		// blocking wait: park in the scheduler until the epoll descriptor is readable
 		epfd := int(a1)
-		simrt.WaitUntil("epoll_wait", func() bool { return Readable(epfd) })
+		simrt.WaitUntilQuiet("epoll_wait", func() bool { return Readable(epfd) })
 		if simrt.FaultChance(K.EpollEINTR) {
 			simrt.CountFault("epoll_eintr")
 			ev("epoll_wait", epfd, -1, syscall.EINTR, 0)
@@ -813,6 +847,7 @@ func EpollCreate1(flag int) (int, error) {
 	return int(r), nil
 }
 
+//go:nocheckptr
 func EpollCtl(epfd, op, fd int, event *syscall.EpollEvent) error {
 	_, _, e := RawSyscall6(syscall.SYS_EPOLL_CTL, uintptr(epfd), uintptr(op), uintptr(fd), uintptr(unsafe.Pointer(event)), 0, 0)
 	if e != 0 {
@@ -821,6 +856,7 @@ func EpollCtl(epfd, op, fd int, event *syscall.EpollEvent) error {
 	return nil
 }
 
+//go:nocheckptr
 func EpollWait(epfd int, events []syscall.EpollEvent, msec int) (int, error) {
 	r, _, e := Syscall6(syscall.SYS_EPOLL_WAIT, uintptr(epfd), uintptr(unsafe.Pointer(&events[0])), uintptr(len(events)), uintptr(msec), 0, 0)
 	if e != 0 {
